@@ -108,8 +108,9 @@ type rmodel struct {
 	lastEverH   uint64
 	lastEverR   uint32
 	haveEver    bool
-	finSaved    map[uint64]bool // SaveFinalization returned nil (any incarnation)
-	storedHR    *hr             // last successful SetStateMachineHeightRound
+	finSaved    map[uint64]bool   // SaveFinalization returned nil (any incarnation)
+	finReqRound map[uint64]uint32 // round named by the latest finalize request per height
+	storedHR    *hr               // last successful SetStateMachineHeightRound
 	bootExpect  hr
 
 	// C02
@@ -125,7 +126,7 @@ type rmodel struct {
 }
 
 func newModel(w *world) *rmodel {
-	return &rmodel{w: w, phase: phBoot, epochs: map[int]*epochState{}, finSaved: map[uint64]bool{},
+	return &rmodel{w: w, phase: phBoot, epochs: map[int]*epochState{}, finSaved: map[uint64]bool{}, finReqRound: map[uint64]uint32{},
 		signed: map[string]map[string]bool{}, saved: map[string]bool{}, ownPH: map[string]bool{}, resignTrigger: map[string]bool{},
 		bootExpect: hr{w.initH, 0}}
 }
@@ -465,7 +466,8 @@ func (m *rmodel) onTimerFired(kind int) {
 
 // hcUnhandled: a HeightCommitted signal now finds the machine outside commit wait (A16).
 func (m *rmodel) hcUnhandled() bool {
-	return !(m.phase == phLive && (m.step == stCommitWait || m.step == stAwaitFin))
+	// A replaying machine does not listen to the signal at all.
+	return m.phase == phLive && !(m.step == stCommitWait || m.step == stAwaitFin)
 }
 
 func (m *rmodel) onHeightCommitted() {
@@ -657,6 +659,9 @@ func (m *rmodel) scan() {
 		case "save-fin":
 			if ev.Err == "" {
 				m.finSaved[ev.H] = true
+				if rr, ok := m.finReqRound[ev.H]; ok && rr != ev.R {
+					m.failf("C08", "finalization-round", "", "finalization of height %d stored for round %d, the finalize request named round %d", ev.H, ev.R, rr)
+				}
 			} else if ev.Err != "context canceled" {
 				m.failf("C10", "finalization-overwrite-attempt", "", "SaveFinalization(%d) refused: %s", ev.H, ev.Err)
 			}
@@ -782,7 +787,8 @@ func shorts(ss []string) []string {
 }
 
 // onFinReq checks C08's finalize clause for one request.
-func (m *rmodel) onFinReq(epoch int, hash string, height uint64) {
+func (m *rmodel) onFinReq(epoch int, hash string, height uint64, round uint32) {
+	m.finReqRound[height] = round
 	if m.finSaved[height] {
 		m.failf("C10", "finalize-request-for-stored-height", "", "finalize request for height %d (%s) although its finalization is stored", height, short(hash))
 	}
